@@ -75,6 +75,18 @@ fn sys_err(kind: &str) -> cosmwasm_std::QuerierResult {
 
 fn new_deps(tables: &Rc<RefCell<Tables>>) -> Deps {
     let mut deps = mock_provenance_dependencies();
+    // host-chain metadata the contract has no business consulting: the wasm module knows "admin" as the contract's admin
+    // and creator (a contract that asks and acts on the answer behaves differently from the model for sender "admin")
+    deps.querier.mock_querier.update_wasm(|q| match q {
+        cosmwasm_std::WasmQuery::ContractInfo { .. } => {
+            let mut r = cosmwasm_std::ContractInfoResponse::default();
+            r.code_id = 1;
+            r.creator = "admin".to_string();
+            r.admin = Some("admin".to_string());
+            SystemResult::Ok(cosmwasm_std::ContractResult::Ok(cosmwasm_std::to_binary(&r).unwrap()))
+        }
+        _ => SystemResult::Err(SystemError::UnsupportedRequest { kind: "wasm".to_string() }),
+    });
     let t = tables.clone();
     deps.querier.register_custom_query(
         MARKER_PATH.to_string(),
@@ -84,6 +96,9 @@ fn new_deps(tables: &Rc<RefCell<Tables>>) -> Deps {
                 Err(_) => return sys_err("undecodable QueryMarkerRequest"),
             };
             let kind = t.borrow().markers.get(&req.id).cloned();
+            if let Some((-1, _, _)) = kind {
+                return sys_err("marker module unavailable");
+            }
             let resp = match kind {
                 Some((marker_type, status, required_attributes)) => {
                     let m = MarkerAccount {
@@ -202,6 +217,7 @@ fn parse_env(t: &mut Toks) -> PResult<Tables> {
                 "Rc" => (2, 4, vec![]),
                 "Rd" => (2, 5, vec![]),
                 "Ud" => (1, 5, vec![]),
+                "E" => (-1, 0, vec![]),            // the marker query itself fails
                 _ => return Err(Malformed),
             };
             if tables.markers.insert(dec_str(d)?, kind).is_some() {
@@ -633,13 +649,23 @@ struct Runner<W: Write> {
     deps: Deps,
     tables: Rc<RefCell<Tables>>,
     out: W,
+    tick: u64,
+}
+
+// the block every call sees: height and time advance with every event and regularly pass round numbers, so that
+// nothing in the contract can come to depend on them unnoticed (the current-format contract never reads them)
+fn env_at(tick: u64) -> cosmwasm_std::Env {
+    let mut env = mock_env();
+    env.block.height = 12_300 + tick * 25;
+    env.block.time = env.block.time.plus_seconds(tick * 3_600);
+    env
 }
 
 impl<W: Write> Runner<W> {
     fn new(out: W) -> Self {
         let tables = Rc::new(RefCell::new(Tables::default()));
         let deps = new_deps(&tables);
-        Runner { deps, tables, out }
+        Runner { deps, tables, out, tick: 0 }
     }
 
     fn line(&mut self, s: &str) {
@@ -797,6 +823,8 @@ impl<W: Write> Runner<W> {
     }
 
     fn run_event(&mut self, ev: Ev) {
+        self.tick += 1;
+        let tick = self.tick;
         match ev {
             Ev::NewHistory => {
                 *self.tables.borrow_mut() = Tables::default();
@@ -811,7 +839,7 @@ impl<W: Write> Runner<W> {
                     let bytes = to_vec(&msg).map_err(|e| e.to_string())?;
                     let msg: InstantiateMsg = from_slice(&bytes).map_err(|e| e.to_string())?;
                     let info = MessageInfo { sender: Addr::unchecked(sender), funds };
-                    instantiate(deps.as_mut(), mock_env(), info, msg).map_err(|e| e.to_string())
+                    instantiate(deps.as_mut(), env_at(tick), info, msg).map_err(|e| e.to_string())
                 });
                 self.finish_response(r, false, before, true);
             }
@@ -821,7 +849,7 @@ impl<W: Write> Runner<W> {
                     let bytes = to_vec(&msg).map_err(|e| e.to_string())?;
                     let msg: ExecuteMsg = from_slice(&bytes).map_err(|e| e.to_string())?;
                     let info = MessageInfo { sender: Addr::unchecked(sender), funds };
-                    execute(deps.as_mut(), mock_env(), info, msg).map_err(|e| e.to_string())
+                    execute(deps.as_mut(), env_at(tick), info, msg).map_err(|e| e.to_string())
                 });
                 self.finish_response(r, probe, before, false);
             }
@@ -830,7 +858,7 @@ impl<W: Write> Runner<W> {
                 let r = self.guarded(|deps| {
                     let bytes = to_vec(&msg).map_err(|e| e.to_string())?;
                     let msg: MigrateMsg = from_slice(&bytes).map_err(|e| e.to_string())?;
-                    migrate(deps.as_mut(), mock_env(), msg).map_err(|e| e.to_string())
+                    migrate(deps.as_mut(), env_at(tick), msg).map_err(|e| e.to_string())
                 });
                 self.finish_response(r, probe, before, false);
             }
@@ -847,7 +875,7 @@ impl<W: Write> Runner<W> {
                 let r = catch_unwind(AssertUnwindSafe(|| -> Result<Binary, String> {
                     let bytes = to_vec(&msg).map_err(|e| e.to_string())?;
                     let msg: QueryMsg = from_slice(&bytes).map_err(|e| e.to_string())?;
-                    query(deps.as_ref(), mock_env(), msg).map_err(|e| e.to_string())
+                    query(deps.as_ref(), env_at(tick), msg).map_err(|e| e.to_string())
                 }))
                 .unwrap_or_else(|p| Err(panic_text(p)));
                 let changed = snapshot(&self.deps.storage) != before;
